@@ -696,6 +696,9 @@ class URL:
                               fragment=dest.fragment,
                               username=dest.username or self.username,
                               password=dest.password or self.password)
+        # from_parts() cannot know the address family; without it an
+        # IPv6 host would be rendered without its brackets
+        ret.family = dest.family if dest.host else self.family
         ret.normalize()
         return ret
 
